@@ -951,6 +951,8 @@ def c01(sc, V):
             conv = True
             for w in a.watchers:
                 cfg = next((c for c in sc["watchers"] if c["name"] == w["name"]), None)
+                if cfg is None:
+                    continue          # added at run time: its options (respawn, …) are not known to this oracle
                 respawn = cfg.get("respawn", True) if cfg else True
                 # on-demand watchers replace a dead worker only at the next connection (documented): not C01's claim
                 if w["status"] != "active" or not respawn or (cfg or {}).get("max_age") or (cfg or {}).get("on_demand"):
